@@ -35,6 +35,10 @@ pub struct Case {
     /// items of its own and finishes while the original carries on
     #[serde(default)]
     pub dup_at: Option<u8>,
+    /// (unbatched, uncompressed, string/bytes codec) before this item index an over-limit
+    /// item is offered; the publisher must refuse it and carry on unharmed
+    #[serde(default)]
+    pub oversize_at: Option<u8>,
 }
 
 fn interval_of(kind: u8) -> Duration {
@@ -280,7 +284,20 @@ async fn run_typed<K: Kind>(addr: SocketAddr, certs: &Certs, c: &Case) -> Outcom
             }
         }};
     }
+    let oversize_at = c.oversize_at.filter(|_| c.batching.is_none() && c.comp.is_none() && c.codec % 3 != 2).map(|d| d as usize % (items.len() + 1));
+    macro_rules! oversize_here {
+        () => {{
+            let big = K::item(vec![b'Z'; LIMIT + 1]);
+            let r = if c.use_feed { p.feed(big).await } else { p.send(big).await };
+            if r.is_ok() {
+                return Outcome::fail("oversize-item-accepted", format!("an item of {} bytes (over the frame limit) was accepted by the publisher", LIMIT + 1));
+            }
+        }};
+    }
     for (i, it) in items.iter().enumerate() {
+        if oversize_at == Some(i) {
+            oversize_here!();
+        }
         if dup_at == Some(i) {
             duplicate_here!();
         }
@@ -288,6 +305,9 @@ async fn run_typed<K: Kind>(addr: SocketAddr, certs: &Certs, c: &Case) -> Outcom
         if let Err(e) = r {
             return Outcome::fail("publisher-refused-item", format!("item {i} ({} bytes) refused: {e}", c.item_bytes(i).len()));
         }
+    }
+    if oversize_at == Some(items.len()) {
+        oversize_here!();
     }
     if dup_at == Some(items.len()) {
         duplicate_here!();
@@ -443,6 +463,7 @@ async fn run_typed<K: Kind>(addr: SocketAddr, certs: &Certs, c: &Case) -> Outcom
     if c.nsubs % 3 >= 1 { labels.push("multiple-subscribers"); }
     if n == 0 { labels.push("zero-items"); }
     if dup_at.is_some() { labels.push("publisher-duplicated"); }
+    if oversize_at.is_some() { labels.push("refused-oversize-item-then-more"); }
     if let (Some(d), Some(b)) = (dup_at, bsz) { if b > 1 && d % b != 0 { labels.push("duplicated-with-partial-batch"); } }
     if let Some((_, k)) = c.batching { labels.push(["interval-0", "interval-1ms", "interval-1h", "interval-max"][(k % 4) as usize]); }
     Outcome::pass(labels, partial || (c.comp.is_some() && big) || c.nsubs % 3 >= 1)
@@ -471,13 +492,13 @@ pub fn strategy() -> BoxedStrategy<Case> {
         3 => Just(None),
         7 => (prop_oneof![2 => Just(1u32), 4 => 2u32..12, 2 => 12u32..120, 1 => 120u32..=300, 1 => Just(0u32), 1 => Just(100_000u32)], prop_oneof![3 => Just(2u8), 2 => Just(1u8), 2 => Just(0u8), 1 => Just(3u8)]).prop_map(Some),
     ];
-    (0u8..3, comp, batching, 0u8..3, 0u8..6, any::<u8>(), any::<u16>(), proptest::collection::vec(prop_oneof![8 => 0u8..5, 2 => Just(5u8), 1 => Just(6u8), 1 => Just(7u8), 1 => Just(9u8)], 1..6), 0u8..5, any::<bool>(), (any::<u16>(), prop_oneof![3 => Just(None), 1 => any::<u8>().prop_map(Some)]))
-        .prop_map(|(codec, comp, batching, nsubs, count_kind, count_k, count_r, sizes, content, use_feed, (seed, dup_at))| Case { codec, comp, batching, nsubs, count_kind, count_k, count_r, sizes, content, use_feed, seed, dup_at })
+    (0u8..3, comp, batching, 0u8..3, 0u8..6, any::<u8>(), any::<u16>(), proptest::collection::vec(prop_oneof![8 => 0u8..5, 2 => Just(5u8), 1 => Just(6u8), 1 => Just(7u8), 1 => Just(9u8)], 1..6), 0u8..5, any::<bool>(), (any::<u16>(), prop_oneof![3 => Just(None), 1 => any::<u8>().prop_map(Some)], prop_oneof![2 => Just(None), 1 => any::<u8>().prop_map(Some)]))
+        .prop_map(|(codec, comp, batching, nsubs, count_kind, count_k, count_r, sizes, content, use_feed, (seed, dup_at, oversize_at))| Case { codec, comp, batching, nsubs, count_kind, count_k, count_r, sizes, content, use_feed, seed, dup_at, oversize_at })
         .boxed()
 }
 
 pub fn run(ctx: &mut Ctx) {
-    ctx.rule = "configuration x workload: codec {String, Bytes, Bincode<nested struct>} x compression {none, gzip/zlib 0-9, zstd 0-18, lz4, brotli 3 modes x 0-9, presets} x batching {off, BatchConfig::new(size in {0,1,2..300,100000}, interval in {0, 1 ms, 1 h, Duration::MAX})} x 1-3 subscribers; item count chosen relative to the batch size (0, 1, size-1, size, size+1, k*size+r); payload size classes 0 B .. just under the frame limit (clipped so a whole batch fits one frame), content kinds random/repeated/periodic/mixed/text; items submitted with send or feed; in a quarter of the cases the publisher is duplicated after a generated number of items (also with a partially filled batch) and the copy sends 1-3 items of its own and finishes, which must arrive exactly once and leave the original's sequence untouched; each subscriber is warmed up with probes from a second publisher before the publisher under test starts; non-trivial = batching with a count that is not a multiple of the batch size, or compression with a payload > 4 KiB, or >= 2 subscribers; distinct by case hash".into();
+    ctx.rule = "configuration x workload: codec {String, Bytes, Bincode<nested struct>} x compression {none, gzip/zlib 0-9, zstd 0-18, lz4, brotli 3 modes x 0-9, presets} x batching {off, BatchConfig::new(size in {0,1,2..300,100000}, interval in {0, 1 ms, 1 h, Duration::MAX})} x 1-3 subscribers; item count chosen relative to the batch size (0, 1, size-1, size, size+1, k*size+r); payload size classes 0 B .. just under the frame limit (clipped so a whole batch fits one frame), content kinds random/repeated/periodic/mixed/text; items submitted with send or feed; unbatched uncompressed publishers are in a third of the cases also offered an over-limit item at a generated point, which must be refused without harming the items accepted afterwards; in a quarter of the cases the publisher is duplicated after a generated number of items (also with a partially filled batch) and the copy sends 1-3 items of its own and finishes, which must arrive exactly once and leave the original's sequence untouched; each subscriber is warmed up with probes from a second publisher before the publisher under test starts; non-trivial = batching with a count that is not a multiple of the batch size, or compression with a payload > 4 KiB, or >= 2 subscribers; distinct by case hash".into();
     ctx.assumptions.push("'registration took effect' is established by a probe item from a second publisher having been yielded by every subscriber".into());
     ctx.assumptions.push("a batch that would exceed the frame limit is outside 'items the publisher accepted' and is not generated; batch sizes above 100000 are not generated (the client pre-allocates the batch vector)".into());
     let env = match Env::new() {
